@@ -124,6 +124,7 @@ class ShiftInterp:
         self.internal = internal
         self.depth = depth
         self.const_params = const_params or {}
+        self.collect_inner_conds = False
         self.strict_exp = False  # also require exp arguments to be max-shifted (<= 0)
         self.conflicts: List[ST] = []
         self.hazards: List[Tuple[ast.AST, ST]] = []
@@ -553,21 +554,24 @@ class ShiftInterp:
             if isinstance(tgt, ST):
                 return tgt
             if tgt is not None:
-                fn, ext2, is_method, src2, consts = tgt
-                params = [a.arg for a in fn.args.posonlyargs + fn.args.args]
-                if is_method and params and params[0] in ("self", "cls"):
-                    params = params[1:]
-                binding = dict(zip(params, args))
-                binding.update(kws)
-                sub = ShiftInterp(ext2, source=src2, internal=self.internal, depth=self.depth + 1, const_params=consts)
-                rets, _ = sub.run(fn, binding)
-                self.conflicts += sub.conflicts
-                self.hazards += sub.hazards
-                self.unknowns += sub.unknowns
-                self.selectors += sub.selectors
+                tgts = tgt if isinstance(tgt, list) else [tgt]
                 out = None
-                for (_, t) in rets:
-                    out = t if out is None else self._join(out, t, e)
+                for (fn, ext2, is_method, src2, consts) in tgts:
+                    params = [a.arg for a in fn.args.posonlyargs + fn.args.args]
+                    if is_method and params and params[0] in ("self", "cls"):
+                        params = params[1:]
+                    binding = dict(zip(params, args))
+                    binding.update(kws)
+                    sub = ShiftInterp(ext2, source=src2, internal=self.internal, depth=self.depth + 1, const_params=consts)
+                    sub.strict_exp = self.strict_exp
+                    rets, _ = sub.run(fn, binding)
+                    self.conflicts += sub.conflicts
+                    self.hazards += sub.hazards
+                    self.unknowns += sub.unknowns
+                    self.selectors += sub.selectors
+                    self.cond_types += sub.cond_types if self.collect_inner_conds else []
+                    for (_, t) in rets:
+                        out = t if out is None else self._join(out, t, e)
                 return out if out is not None else inv()
         if name in SELECTORS and args and a0.kind in ("shift", "scale") and (a0.axes is None or "T" in (a0.axes or ())):
             self.selectors.append((e, name))
